@@ -21,6 +21,77 @@ func ruleMarkFileNum(p *Prog, r *Report, rule string) {
 	if fn == nil {
 		return
 	}
+	fileNumCasWalk(p, r, fn, false)
+}
+
+// ruleReuseFileNum: session.reuseFileNum(num) gives a number back to the allocator — concurrently
+// with allocFileNum on other goroutines (flush, table compaction, transaction). The counter may go
+// back only from num+1 to num, and only atomically: a check followed by a separate store rewinds
+// the counter below a number another goroutine was handed in between, and that number is then
+// allocated twice — the second owner truncates or removes a live table's file. Same walker as
+// markFileNum: every CAS compares against the value loaded in this iteration (or a value the
+// branches proved equal to it) and installs either that same value or num where old == num+1 holds.
+// The whole module changes the counter only with atomic read-modify-write operations; the plain
+// atomic store (setNextFileNum) is reached only from session.recover, before anything runs.
+func ruleReuseFileNum(p *Prog, r *Report, rule string) {
+	r.Begin(rule, "E-GUARD", "the file-number counter: session.reuseFileNum lowers it only from num+1 to num and only by a compare-and-swap against the loaded value; everywhere else it changes by atomic add or CAS; the atomic store (setNextFileNum) is called from session.recover only; no plain access", 5)
+	defer r.End()
+	if fn := resolveFn(p, r, "leveldb", "(*session).reuseFileNum"); fn != nil {
+		fileNumCasWalk(p, r, fn, true)
+	}
+	isCounterAddr := func(v ssa.Value) bool { return isFieldAddr(v, "leveldb.session", "stNextFileNum") }
+	n := 0
+	for _, fn := range p.SrcFuncs("leveldb") {
+		instrs(fn, func(_ *ssa.BasicBlock, _ int, in ssa.Instruction) {
+			fa, ok := in.(*ssa.FieldAddr)
+			if !ok || !isCounterAddr(fa) {
+				return
+			}
+			for _, ref := range *fa.Referrers() {
+				if _, dbg := ref.(*ssa.DebugRef); dbg {
+					continue
+				}
+				n++
+				key := "atomic-access@" + fnName(fn)
+				c, isCall := ref.(*ssa.Call)
+				var f *ssa.Function
+				if isCall {
+					f = staticCallee(&c.Call)
+				}
+				if f == nil || f.Pkg == nil || f.Pkg.Pkg.Path() != "sync/atomic" {
+					r.Fail(fnName(fn), key, "the counter is accessed through sync/atomic only", "plain access to session.stNextFileNum", p.Pos(ref.Pos()), nil)
+					continue
+				}
+				switch f.Name() {
+				case "LoadInt64", "AddInt64", "CompareAndSwapInt64":
+					r.OK(fnName(fn), key, "the counter is accessed through sync/atomic only")
+				case "StoreInt64":
+					r.Check(fnName(fn) == "(*leveldb.session).setNextFileNum", fnName(fn), "no-blind-store@"+fnName(fn), "the counter is overwritten (atomic store) only by setNextFileNum", "atomic.StoreInt64 on the counter: an allocation made between the decision and the store is lost and its number handed out again", p.Pos(ref.Pos()))
+				default:
+					r.Fail(fnName(fn), key, "the counter is accessed through sync/atomic only", "unexpected atomic operation "+f.Name(), p.Pos(ref.Pos()), nil)
+				}
+			}
+		})
+	}
+	r.Site(n)
+	// setNextFileNum is used during recovery only
+	callers := 0
+	for _, fn := range p.SrcFuncs("leveldb") {
+		for _, c := range findCalls(fn, "(*leveldb.session).setNextFileNum") {
+			callers++
+			r.Check(fnName(fn) == "(*leveldb.session).recover", fnName(fn), "store-only-at-recovery@"+fnName(fn), "setNextFileNum is called from session.recover only (nothing allocates concurrently then)", "called from "+fnName(fn), p.Pos(c.Pos()))
+		}
+	}
+	r.Site(callers)
+	r.Check(callers >= 1, "leveldb", "recovery-sets-counter", "session.recover installs the manifest's next file number", fmt.Sprintf("%d callers", callers), "")
+}
+
+// fileNumCasWalk: the interval walker shared by markFileNum (reuse=false) and reuseFileNum (reuse=true).
+func fileNumCasWalk(p *Prog, r *Report, fn *ssa.Function, reuse bool) {
+	what := "markFileNum leaves the counter above num and never lowers it"
+	if reuse {
+		what = "reuseFileNum lowers the counter only from num+1 to num, by a CAS against the loaded value"
+	}
 	num := ssa.Value(fn.Params[1])
 	// offset of a value relative to num: v == num+k
 	relNum := func(v ssa.Value) (int64, bool) {
@@ -76,11 +147,16 @@ func ruleMarkFileNum(p *Prog, r *Report, rule string) {
 		return false
 	})
 	r.Site(1)
-	r.Check(otherWrite == 0, fnName(fn), "counter-updated-by-cas-only", "markFileNum changes the counter only through compare-and-swap against the value it loaded", fmt.Sprintf("%d other writes", otherWrite), p.Pos(fn.Pos()))
+	r.Check(otherWrite == 0, fnName(fn), "counter-updated-by-cas-only", "the counter changes only through compare-and-swap against the value loaded", fmt.Sprintf("%d other writes (store / add)", otherWrite), p.Pos(fn.Pos()))
 	nLoad, nCAS := countInstr(fn, isLoad), countInstr(fn, isCAS)
 	r.Site(nLoad + nCAS)
-	r.Check(nLoad >= 1 && nCAS >= 1, fnName(fn), "load-cas-loop", "markFileNum loads the counter and installs the new value with a CAS", fmt.Sprintf("%d loads, %d CAS", nLoad, nCAS), p.Pos(fn.Pos()))
-	if nLoad == 0 || nCAS == 0 {
+	if reuse && nCAS == 0 && otherWrite == 0 {
+		// giving nothing back is safe (a gap in the numbers); nothing further to decide
+		r.OK(fnName(fn), "load-cas-loop", "loads the counter and installs the new value with a CAS")
+		return
+	}
+	r.Check((nLoad >= 1 || reuse) && nCAS >= 1, fnName(fn), "load-cas-loop", "loads the counter and installs the new value with a CAS", fmt.Sprintf("%d loads, %d CAS", nLoad, nCAS), p.Pos(fn.Pos()))
+	if (nLoad == 0 && !reuse) || nCAS == 0 {
 		return
 	}
 
@@ -91,7 +167,7 @@ func ruleMarkFileNum(p *Prog, r *Report, rule string) {
 		if !seenFail[kind+pos] {
 			seenFail[kind+pos] = true
 			fails = append(fails, kind)
-			r.Fail(fnName(fn), kind, "markFileNum leaves the counter above num and never lowers it", detail, pos, nil)
+			r.Fail(fnName(fn), kind, what, detail, pos, nil)
 		}
 	}
 	nPaths := 0
@@ -147,6 +223,34 @@ func ruleMarkFileNum(p *Prog, r *Report, rule string) {
 				}
 			case isCAS(in):
 				c := in.(*ssa.Call)
+				if reuse {
+					e, n := res(c.Call.Args[1]), res(c.Call.Args[2])
+					// what the swap itself establishes about the counter: old-num (when comparing against the loaded
+					// value) or the constant offset of the expected operand
+					var ed iv
+					switch ke, isRel := relNum(e); {
+					case old != nil && e == old:
+						ed = d
+					case isRel:
+						ed = iv{ke, ke}
+					default:
+						fail("cas-against-loaded-value", "the CAS at "+p.Pos(in.Pos())+" compares against neither the value loaded in this iteration nor num+k", p.Pos(in.Pos()))
+						return
+					}
+					nPaths++
+					kn, isRel := relNum(n)
+					switch {
+					case n == e:
+						// installs what is there: no change
+					case isRel && ed.lo == ed.hi && kn == ed.lo:
+						// the same value, spelled num+k
+					case isRel && kn == 0 && ed.lo == 1 && ed.hi == 1:
+						// num+1 → num
+					default:
+						fail("lowered-only-from-num+1", fmt.Sprintf("the CAS at %s can install a value other than the expected one without the counter being num+1 (counter-num in [%d,%d]): the counter is rewound below numbers in use", p.Pos(in.Pos()), ed.lo, ed.hi), p.Pos(in.Pos()))
+					}
+					return
+				}
 				if old == nil || res(c.Call.Args[1]) != old {
 					fail("cas-against-loaded-value", "the CAS at "+p.Pos(in.Pos())+" does not compare against the value loaded in this iteration", p.Pos(in.Pos()))
 					return
@@ -187,7 +291,7 @@ func ruleMarkFileNum(p *Prog, r *Report, rule string) {
 			}
 			if _, ok := in.(*ssa.Return); ok {
 				nPaths++
-				if !casOK && !(old != nil && d.lo >= 1) {
+				if !reuse && !casOK && !(old != nil && d.lo >= 1) {
 					lo := "unknown"
 					if old != nil {
 						lo = fmt.Sprintf("old-num >= %d", d.lo)
@@ -284,6 +388,10 @@ func ruleMarkFileNum(p *Prog, r *Report, rule string) {
 	walk(entry, 0, nil, nil, iv{math.MinInt32, math.MaxInt32}, false, map[*ssa.BasicBlock]bool{entry: true}, nil)
 	r.Site(nPaths)
 	if len(fails) == 0 {
-		r.Check(nPaths >= 1, fnName(fn), "counter-above-num", "every CAS installs max(old, num+1) and every return follows a successful CAS or old>num", fmt.Sprintf("%d paths analysed", nPaths), p.Pos(fn.Pos()))
+		if reuse {
+			r.Check(nPaths >= 1, fnName(fn), "counter-lowered-atomically", "every CAS installs the loaded value or num where old == num+1", fmt.Sprintf("%d paths analysed", nPaths), p.Pos(fn.Pos()))
+		} else {
+			r.Check(nPaths >= 1, fnName(fn), "counter-above-num", "every CAS installs max(old, num+1) and every return follows a successful CAS or old>num", fmt.Sprintf("%d paths analysed", nPaths), p.Pos(fn.Pos()))
+		}
 	}
 }
